@@ -264,6 +264,23 @@ def thread_owners(cg):
     return out
 
 
+def eff_arg_x(f, e, name=None, ty=None):
+    """like eff_arg, but the structured expression of the argument"""
+    from engine import AnchorError
+    cb = f.bodies.get(e[0])
+    idx = None
+    if cb is not None:
+        params = cb.locals[1:cb.arg_count + 1]
+        if name:
+            idx = next((i for i, l in enumerate(params) if l.get('name') == name), None)
+        if idx is None and ty:
+            c = [i for i, l in enumerate(params) if re.search(ty, l['ty'])]
+            idx = c[0] if len(c) == 1 else None
+    if idx is None or idx >= len(e[2]['x']):
+        raise AnchorError(f"parameter {name or ty} of {e[0]} not found")
+    return e[2]['x'][idx]
+
+
 def eff_arg(f, e, name=None, ty=None):
     """the argument of effect entry `e` (callee = a crate function) that is bound to the parameter called `name`, or - if the
     name is gone - to the only parameter whose type matches `ty`: positions change when a private signature is reordered"""
